@@ -107,10 +107,11 @@ func registry() []PropSpec {
 			ID: "C12",
 			Quick: []HarnessSpec{
 				{Pkg: pkgRefServer, Func: "H12a_q", Unwind: 40, TimeoutMs: 60000, Solvers: []string{"z3-new", "cvc5-int"}, Split: []SplitDim{{"grpc", 0, 1}, {"nd", 1, 11}, {"unit", 0, 6}}, CaseNote: "case split: protocol, number of digits (1..11 / 1..9) and unit letter (H M S m u n, or an invalid letter); every digit is symbolic (no redundant leading zero)", Note: "extractTimeout on Connect-Timeout-Ms / Grpc-Timeout values"},
+				{Pkg: pkgRefServer, Func: "H12c_q", Unwind: 40, Note: "referenceServerChecks middleware: request with / without test name, with / without Connect-Timeout-Ms, with / without request trailers, followed or not by a repeated request of the same test and a first request of another test"},
 				{Pkg: pkgRefServer, Func: "H12b_q", Unwind: 40, Note: "checkHTTPVersion/Protocol/Codec/Compression/TLS on the request of a conformant client: full matrix expected x actual of 3 HTTP versions, GET/POST, 3 protocols (unary/stream content types, bare or +codec), 2 codecs, 6 compressions (identity explicit or omitted), TLS on/off, client certificate none/a/b"},
 			},
 			Stubs: []string{"int64(Duration.Hours/Minutes/Seconds()) summarised as q-1..q+1 (q exact when the remainder is 0), justified by the floating-point lemma of DESIGN.md section 4", "http.Header / url.Values accessed with canonical keys (map models)", "enum descriptors reduced to 'number is a declared value'", "printer = recording stub"},
-			Out:   []string{"net/http request parsing", "the middleware closure (duplicate-request counter, trailers, missing test name) is not encoded yet"},
+			Out:   []string{"net/http request parsing", "connect.ErrorWriter (the rejection response itself)"},
 		},
 		{
 			ID: "C19",
@@ -168,13 +169,14 @@ func registry() []PropSpec {
 			ID: "C06",
 			Quick: []HarnessSpec{
 				{Pkg: pkgCC, Func: "H06a_q", Unwind: 8, TimeoutMs: 400000, Solvers: []string{"z3-new"}, JobSecs: 900, Note: "features: each of the 5 axis lists of symbolic length <=2 with arbitrary (repeated, unordered) valid enum elements, 7 tri-state flags; arbitrary probe case (all 10 fields symbolic, including out-of-range values)"},
+				{Pkg: pkgCC, Func: "H06p_q", Unwind: 8, UnwindFor: map[string]int{"parseConfig": 80, "h06p": 80}, NoDedupe: true, TimeoutMs: 300000, Solvers: []string{"z3-new"}, JobSecs: 1200, Cap: 64, Note: "parseConfig set algebra: features with exactly one entry per axis list and 7 tri-state flags, <=1 include and <=1 exclude entry (every field set or omitted), arbitrary probe case: result == (features + include) - exclude, contradictory or empty configurations rejected"},
 				{Pkg: pkgCC, Func: "H06r2_q", Unwind: 8, TimeoutMs: 600000, Solvers: []string{"z3-new"}, JobSecs: 1200, Note: "two include/exclude entries (every field independently set or omitted) resolved in sequence against symbolic features (axis lists of length <=1, 7 tri-state flags); arbitrary probe case"},
 			},
 			Thorough: []HarnessSpec{
 				{Pkg: pkgCC, Func: "H06a_t", Unwind: 8, Note: "as quick with axis lists of length <=3", JobSecs: 3000, ExecSecs: 1200, TimeoutMs: 1500000},
 			},
 			Stubs: []string{"protoyaml Unmarshal replaced by a stub that installs the symbolic Config (natively: the Config is marshalled to JSON and really parsed)", "os.Stderr deprecation warning is a no-op"},
-			Out:   []string{"YAML syntax", "literal error texts"},
+			Out:   []string{"YAML syntax", "literal error texts", "parseConfig's include/exclude loops with multi-valued axis lists (the map logs make the query intractable; resolveCase is checked directly instead)"},
 		},
 		{
 			ID: "C14",
